@@ -63,6 +63,8 @@ func init() {
 			add(ShutdownParams{Case: "reopen", Checkpoint: "auto", Membership: "dynamic"}, 4)
 			add(ShutdownParams{Case: "rebalance", Checkpoint: "auto", Membership: "static"}, 4)
 			add(ShutdownParams{Case: "rebalance", Checkpoint: "auto", Mitigation: true, Membership: "dynamic"}, 4)
+			add(ShutdownParams{Case: "idle", Checkpoint: "auto", Membership: "couchbase", MaxPoint: 1}, 1)
+			add(ShutdownParams{Case: "deliver", Checkpoint: "auto", Membership: "couchbase", MaxPoint: 60}, 4)
 			return out
 		},
 	})
@@ -262,12 +264,17 @@ func shutdownMain(p ShutdownParams) {
 	nReq, nEv := len(c.Requests), len(e.Cons.Events)
 	vrt.Sleep(3 * 30 * time.Second)
 	vrt.Quiesce()
-	if len(c.Requests) != nReq {
+	{
 		var kinds []string
 		for _, r := range c.Requests[nReq:] {
+			if r.Answer == "shutdown" {
+				continue // refused by the closed client library, never reached the cluster (the last turn of a polling loop)
+			}
 			kinds = append(kinds, r.Agent+":"+r.Kind)
 		}
-		vrt.Failf("%s: background activity after Close() returned: requests %v", desc, kinds)
+		if len(kinds) > 0 {
+			vrt.Failf("%s: background activity after Close() returned: requests %v", desc, kinds)
+		}
 	}
 	if len(e.Cons.Events) != nEv {
 		vrt.Failf("%s: %d events delivered after Close() returned", desc, len(e.Cons.Events)-nEv)
